@@ -15,11 +15,11 @@
 //!   [4, bytes]            anti_amplification_blocked(bytes)              -> [0|1]
 //!   [5]                   budget probe: largest s in [0, 2^40] with !blocked(s), found by
 //!                         bisection over the real predicate; -1 if blocked(0)  -> [s]
-//!   [6, seg, max, d0, k]  one `poll_transmit` batch abstracted: before datagram i (< max) consult
-//!                         blocked(seg_i * i + 1) exactly as the loop does (seg_0 = seg, after the
-//!                         first datagram seg_i = d0); datagram 0 has d0 bytes (d0 <= seg), the
-//!                         following ones d0 bytes, at most k datagrams wanted; afterwards
-//!                         total_sent saturating_add(total)  -> [datagrams, bytes, total_sent]
+//!   [6, seg, max, d0, d1, ...]  one `poll_transmit` batch abstracted: the caller wants to send datagrams
+//!                         of d0, d1, ... bytes; before datagram i (< max) the hook consults
+//!                         blocked(seg_i * i + 1) exactly as the loop does (seg_0 = seg, and once the
+//!                         first datagram is finished seg_i = d0, as `segment_size = buf.len()`);
+//!                         afterwards total_sent saturating_add(sum)  -> [datagrams, bytes, total_sent]
 //!   [7, v]                set validated                                   -> [v]
 //! Overflow of `total_recvd * 3` or `total_sent + bytes` panics in debug builds: PANIC.
 #![allow(missing_docs, dead_code, unused_imports, unreachable_pub, clippy::all)]
@@ -75,20 +75,20 @@ fn antiamp(ops: &Ops) -> Outs {
                 }
             }
             6 => {
-                let (mut seg, max, d0, k) = (op[1] as u64, op[2] as u64, op[3] as u64, op[4] as u64);
+                let (mut seg, max) = (op[1] as u64, op[2] as u64);
                 let mut n = 0u64;
                 let mut total = 0u64;
-                while n < k {
+                for d in &op[3..] {
                     if n >= max {
                         break;
                     }
                     if path.anti_amplification_blocked(seg * n + 1) {
                         break;
                     }
-                    total += d0;
+                    total += *d as u64;
                     n += 1;
                     if n == 1 {
-                        seg = d0;
+                        seg = *d as u64;
                     }
                 }
                 path.total_sent = path.total_sent.saturating_add(total);
@@ -103,6 +103,14 @@ fn antiamp(ops: &Ops) -> Outs {
         outs.push(o);
     }
     outs
+}
+
+/// Behavioural constant for `coq/gen/Constants.v` (not yet wired into `constants()` of
+/// `connection/verif_hooks/mod.rs`): the amplification factor, measured on the real predicate as
+/// the unblocked budget of a fresh unvalidated path that received 1000 bytes, divided by 1000.
+pub(crate) fn constants() -> Vec<(&'static str, i128)> {
+    let outs = antiamp(&[vec![0, 0], vec![1, 1000], vec![5]]);
+    vec![("ANTI_AMPLIFICATION_FACTOR", outs[2][0] / 1000)]
 }
 
 pub(crate) fn run(comp: &str, ops: &Ops) -> Option<Outs> {
